@@ -34,7 +34,22 @@ fn gen_change(rng: &mut Rng, text: &str) -> String {
 }
 
 pub fn gen_c08(rng: &mut Rng, n: usize, out: &mut Vec<String>) {
-    for _ in 0..n {
+    for it in 0..n {
+        if it % 12 == 5 {
+            // "a range the server reports, sent back as a request position, addresses that same token":
+            // the START of every identifier token (compact layouts: directly after the previous token)
+            let prog = crate::gen_prog::gen(rng, 2, 3, 2);
+            let lo = crate::gen_prog::Layout { comment_pct: 0, comment_gaps: None, compact: rng.chance(2, 3) };
+            let (text, offs, _) = crate::gen_prog::layout(rng, &prog.toks, &lo);
+            let h = hex_str(&text);
+            for (k, t) in prog.toks.iter().enumerate() {
+                if t.binding != crate::gen_prog::Binding::None && rng.chance(1, 2) {
+                    let (l, c) = crate::ops_feat::lsp_pos(&text, offs[k]);
+                    out.push(format!("PREP {} {} {}", h, l, c));
+                    out.push(format!("SPECPREP {} {} {}", h, l, c));
+                }
+            }
+        }
         let text = gen_doc_text(rng, 24);
         let h = hex_str(&text);
         for _ in 0..3 {
